@@ -31,7 +31,8 @@ Proof. exact decode_text_total. Qed.
 Print Assumptions c07_decode_text_total.
 
 (** a missing Host on HTTP/1.1 is a 400 *)
-Theorem c07_host_total : forall has_host proto11, total4xx (host_check has_host proto11) = true.
+Theorem c07_host_total : forall has_host proto11 split,
+  in_set split [EValue] = true -> total4xx (host_check has_host proto11 split) = true.
 Proof. exact host_check_total. Qed.
 Print Assumptions c07_host_total.
 
